@@ -11,7 +11,9 @@
 
 namespace Fastor {
 
-#if FASTOR_CXX_VERSION >= 2017
+// the explicit-output einsum is built on einsum_helper (opmin_meta.h), which is not available
+// when operation minimisation is switched off
+#if FASTOR_CXX_VERSION >= 2017 && !defined(FASTOR_DONT_PERFORM_OP_MIN)
 
 // Single tensor
 //-----------------------------------------------------------------------------------------------------------------------//
